@@ -13,10 +13,13 @@ pub struct C03;
 
 #[derive(Clone, Debug, Serialize, Deserialize, PartialEq)]
 pub enum Sel { S(usize), V(Vec<usize>), R(usize, usize, bool), All, M(Vec<bool>), /// a negative scalar index -n (never addresses an element)
-  N(usize) }
+  N(usize),
+  /// a logical mask written as a 2-D matrix with `rows` rows (the flags are stored column-major): as a single subscript it addresses the
+  /// linear positions of its true entries
+  M2(usize, Vec<bool>) }
 
 impl Sel {
-  pub fn form(&self) -> &'static str { match self { Sel::S(_) | Sel::N(_) => "s", Sel::V(_) => "v", Sel::R(_, _, true) => "ri", Sel::R(_, _, false) => "rx", Sel::All => "a", Sel::M(_) => "m" } }
+  pub fn form(&self) -> &'static str { match self { Sel::S(_) | Sel::N(_) => "s", Sel::V(_) => "v", Sel::R(_, _, true) => "ri", Sel::R(_, _, false) => "rx", Sel::All => "a", Sel::M(_) => "m", Sel::M2(..) => "mm" } }
   /// source text; `ik` = literal kind used for numeric indices ("f64" plain, "u8", "u64")
   pub fn text(&self, ik: &str) -> String {
     let n = |i: usize| match ik { "u8" => format!("{}u8", i), "u64" => format!("{}u64", i), "i64" => format!("{}<i64>", i), _ => format!("{}", i) };
@@ -27,6 +30,7 @@ impl Sel {
       Sel::R(a, b, incl) => format!("{}{}{}", n(*a), if *incl { "..=" } else { ".." }, n(*b)),
       Sel::All => ":".into(),
       Sel::M(m) => format!("[{}]", m.iter().map(|b| if *b { "true" } else { "false" }).collect::<Vec<_>>().join(" ")),
+      Sel::M2(r, m) => { let c = m.len() / r; format!("[{}]", (0..*r).map(|i| (0..c).map(|j| if m[j * r + i] { "true" } else { "false" }).collect::<Vec<_>>().join(" ")).collect::<Vec<_>>().join("; ")) }
     }
   }
   /// 1-based positions addressed within an extent; None if the selector addresses nothing valid
@@ -37,14 +41,14 @@ impl Sel {
       Sel::R(a, b, incl) => { let hi = if *incl { *b } else { b.checked_sub(1)? }; if *a >= 1 && hi <= extent && *a <= hi { Some((*a..=hi).collect()) } else { None } }
       Sel::All => Some((1..=extent).collect()),
       Sel::N(_) => None,
-      Sel::M(m) => if m.len() == extent { Some(m.iter().enumerate().filter(|(_, b)| **b).map(|(i, _)| i + 1).collect()) } else { None },
+      Sel::M(m) | Sel::M2(_, m) => if m.len() == extent { Some(m.iter().enumerate().filter(|(_, b)| **b).map(|(i, _)| i + 1).collect()) } else { None },
     }
   }
   pub fn is_scalar(&self) -> bool { matches!(self, Sel::S(_) | Sel::N(_)) }
 }
 
 pub const SHAPES: [(usize, usize); 11] = [(1, 1), (1, 3), (3, 1), (2, 2), (2, 3), (3, 2), (3, 3), (4, 4), (1, 9), (7, 1), (5, 6)];
-pub const FORMS1: [&str; 6] = ["s", "v", "ri", "rx", "a", "m"];
+pub const FORMS1: [&str; 7] = ["s", "v", "ri", "rx", "a", "m", "mm"];
 pub const FORMS2: [&str; 5] = ["s", "v", "ri", "a", "m"];
 
 /// in-range selector of a given form
@@ -57,6 +61,14 @@ pub fn gen_sel(form: &str, extent: usize, rng: &mut Rng) -> Sel {
     "a" => Sel::All,
     // one mask in six selects nothing (the result is an empty matrix), the others select at least one position
     "m" => { if rng.chance(1, 6) { return Sel::M(vec![false; extent]); } let mut m: Vec<bool> = (0..extent).map(|_| rng.chance(1, 2)).collect(); let j = rng.below(extent as u64) as usize; m[j] = true; Sel::M(m) }
+    // a mask written as a genuine 2-D matrix (rows x cols = extent, both >= 2); extents that have no such factorisation get a vector mask
+    "mm" => {
+      let divs: Vec<usize> = (2..extent).filter(|d| extent % d == 0 && extent / d >= 2).collect();
+      if divs.is_empty() { return gen_sel("m", extent, rng); }
+      let r = *rng.pick(&divs);
+      if rng.chance(1, 6) { return Sel::M2(r, vec![false; extent]); }
+      let mut m: Vec<bool> = (0..extent).map(|_| rng.chance(1, 2)).collect(); let j = rng.below(extent as u64) as usize; m[j] = true; Sel::M2(r, m)
+    }
     _ => panic!("form"),
   }
 }
@@ -78,6 +90,8 @@ pub fn oor_variants(sel: &Sel, extent: usize) -> Vec<(&'static str, Sel)> {
     Sel::R(a, b, false) => vec![("end-past", Sel::R(*a, extent + 2, false)), ("start-zero", Sel::R(0, *b, false))],
     Sel::All => vec![],
     Sel::M(m) => { let mut long = m.clone(); long.push(true); let mut long_f = m.clone(); long_f.push(false); let mut short = m.clone(); short.pop(); let mut v = vec![("mask-long", Sel::M(long)), ("mask-long-false", Sel::M(long_f))]; if short.len() >= 1 && short.iter().any(|b| *b) { v.push(("mask-short", Sel::M(short))); } v }
+    // one more column / one column fewer: the number of flags no longer equals the number of elements
+    Sel::M2(r, m) => { let mut long = m.clone(); for i in 0..*r { long.push(i == 0); } let mut v = vec![("mask2d-long", Sel::M2(*r, long))]; if m.len() / r >= 3 { let short: Vec<bool> = m[..m.len() - r].to_vec(); if short.iter().any(|b| *b) { v.push(("mask2d-short", Sel::M2(*r, short))); } } v }
   }
 }
 
@@ -163,6 +177,8 @@ impl Prop for C03 {
         let mut formsets: Vec<Vec<&str>> = FORMS1.iter().map(|f| vec![*f]).collect();
         for a in FORMS2.iter() { for b in FORMS2.iter() { formsets.push(vec![*a, *b]); } }
         for forms in formsets.iter() {
+          // a 2-D mask needs an element count with a factorisation into two extents >= 2
+          if forms.len() == 1 && forms[0] == "mm" && !(2..r * c).any(|d| (r * c) % d == 0 && (r * c) / d >= 2) { continue; }
           for d in 0..draws {
             let fname = forms.join(",");
             let base = format!("kind={};shape={}x{};form={}", k, r, c, fname);
@@ -173,7 +189,7 @@ impl Prop for C03 {
             let sels: Vec<Sel> = forms.iter().zip(extents.iter()).map(|(f, e)| gen_sel(f, *e, &mut rng)).collect();
             let exp = ref_select(&x, &sels).expect("in-range selector must resolve");
             let src = format!("x{}", index_text(&sels, ik));
-            out.push(Case { id: format!("{};var=in;d={}", base, d), cell: format!("{};var=in", base), input: json!({"kind": k, "x": x, "src": src, "probe": J::Null, "expect": exp, "documented": documented(&forms[..]) && *r >= 2 && *c >= 2 && sels.iter().all(|s| match s { Sel::V(v) => v.len() >= 2, Sel::M(m) => m.iter().filter(|b| **b).count() >= 2, Sel::R(a, b, _) => b > a, _ => true }), "ik": ik}) });
+            out.push(Case { id: format!("{};var=in;d={}", base, d), cell: format!("{};var=in", base), input: json!({"kind": k, "x": x, "src": src, "probe": J::Null, "expect": exp, "documented": documented(&forms[..]) && *r >= 2 && *c >= 2 && sels.iter().all(|s| match s { Sel::V(v) => v.len() >= 2, Sel::M(m) | Sel::M2(_, m) => m.iter().filter(|b| **b).count() >= 2, Sel::R(a, b, _) => b > a, _ => true }), "ik": ik}) });
             if d == 0 || tier == Tier::Thorough {
               for (pos, e) in extents.iter().enumerate() {
                 for (label, bad) in oor_variants(&sels[pos], *e) {
